@@ -145,6 +145,87 @@ def writeAll (st : St) : List Bytes → Res
 /-- a fresh `Filter{}`: line 0, column 0 -/
 def init : St := ⟨0, 0⟩
 
+
+/-! ### resolution of hint positions: the FileSet is part of the filter state (filter.go:26, compiler.go WritePkgCode) -/
+
+/-- one file of a `token.FileSet`: name, size, and a line table with a line start every `step` bytes -/
+structure FileSpec where
+  name : String
+  size : Nat
+  step : Nat
+  deriving DecidableEq, Repr
+
+/-- a FileSet built by `AddFile(name, fs.Base(), size)` for each spec: bases 1, 1 + size₀ + 1, … -/
+abbrev FileSetSpec := List FileSpec
+
+/-- an original position: file, line, column (as `token.Position`) -/
+abbrev Orig := Option (String × Nat × Nat)
+
+def resolveAux (base : Nat) : FileSetSpec → Nat → Orig
+  | [], _ => none
+  | f :: tl, pos =>
+    if base ≤ pos ∧ pos ≤ base + f.size then
+      let off := pos - base
+      some (f.name, off / (max f.step 1) + 1, off % (max f.step 1) + 1)
+    else resolveAux (base + f.size + 1) tl pos
+
+/-- `FileSet.Position(pos)` (filter.go:89,91): `NoPos` and positions outside every file are invalid -/
+def resolve (fs : FileSetSpec) (pos : Nat) : Orig := if pos = 0 then none else resolveAux 1 fs pos
+
+/-- a mapping as it reaches the source map: generated position and resolved original position -/
+structure RMapping where
+  line : Nat
+  column : Nat
+  orig : Orig
+  deriving DecidableEq, Repr
+
+/-- one filter, a sequence of segments: `f.FileSet = fs` (compiler.go WritePkgCode), then the Write calls of that package.
+    Every hint is resolved in the FileSet that is installed WHEN IT IS WRITTEN. `decode` = Hint.Unpack (payload → position). -/
+def writeSeq (decode : Bytes → Nat) (st : St) : List (FileSetSpec × List Bytes) → Bytes × List RMapping
+  | [] => ([], [])
+  | (fs, chunks) :: tl =>
+    let r := writeAll st chunks
+    let rest := writeSeq decode r.st tl
+    (r.out ++ rest.1, r.maps.map (fun m => ⟨m.line, m.column, resolve fs (decode m.payload)⟩) ++ rest.2)
+
+/-- the resolution order of a whole program: per segment its FileSet and the positions of its hints -/
+def resolveSeq (segs : List (FileSetSpec × List Nat)) : List Orig :=
+  segs.flatMap (fun s => s.2.map (resolve s.1))
+
+/-- file containing `pos`, with its base (FileSet.File) -/
+def fileOf (base : Nat) : FileSetSpec → Nat → Option (Nat × FileSpec)
+  | [], _ => none
+  | f :: tl, pos => if base ≤ pos ∧ pos ≤ base + f.size then some (base, f) else fileOf (base + f.size + 1) tl pos
+
+def posIn (bf : Nat × FileSpec) (pos : Nat) : Orig :=
+  some (bf.2.name, (pos - bf.1) / (max bf.2.step 1) + 1, (pos - bf.1) % (max bf.2.step 1) + 1)
+
+/-- NOT the code: `position` of a variant that remembers the file of the previous hint and tries it first -/
+def stalePos (fs : FileSetSpec) (cache : Option (Nat × FileSpec)) (p : Nat) : Orig × Option (Nat × FileSpec) :=
+  if p = 0 then (none, cache)
+  else
+    let viaSet : Orig × Option (Nat × FileSpec) :=
+      match fileOf 1 fs p with
+      | some bf' => (posIn bf' p, some bf')
+      | none => (none, cache)
+    match cache with
+    | some bf => if bf.1 ≤ p ∧ p ≤ bf.1 + bf.2.size then (posIn bf p, cache) else viaSet
+    | none => viaSet
+
+def stalePosList (fs : FileSetSpec) : Option (Nat × FileSpec) → List Nat → List Orig × Option (Nat × FileSpec)
+  | cache, [] => ([], cache)
+  | cache, p :: ps =>
+    let r := stalePos fs cache p
+    let rest := stalePosList fs r.2 ps
+    (r.1 :: rest.1, rest.2)
+
+/-- … and keeps that cache across FileSet changes (it is never invalidated) -/
+def resolveSeqStale (cache : Option (Nat × FileSpec)) : List (FileSetSpec × List Nat) → List Orig
+  | [] => []
+  | (fs, ps) :: tl =>
+    let r := stalePosList fs cache ps
+    r.1 ++ resolveSeqStale r.2 tl
+
 /-! ### mappings of JavaScript sources (prelude, .inc.js) -/
 
 /-- a decoded mapping of an isolated JS file as produced by `sourcemap.Map.DecodedMappings`
